@@ -118,13 +118,6 @@ Proof.
   rewrite (H a (or_introl eq_refl)). rewrite IH; [reflexivity|]. intros v Hv. apply H. right. exact Hv.
 Qed.
 
-(* how histogramCounts.observe classifies a value under zero threshold zt *)
-Definition goes_pos (zt v : f64) : bool := negb (is_nan v) && fgt (inf_to_max v) zt.
-Definition goes_neg (zt v : f64) : bool :=
-  negb (is_nan v) && negb (fgt (inf_to_max v) zt) && flt (inf_to_max v) (fneg zt).
-Definition goes_zero (zt v : f64) : bool :=
-  negb (is_nan v) && negb (fgt (inf_to_max v) zt) && negb (flt (inf_to_max v) (fneg zt)).
-
 Lemma cnt_cons p v G : cnt p (v :: G) = (if p v then 1 else 0) + cnt p G.
 Proof. unfold cnt, zlen. cbn [filter]. destruct (p v); cbn [length]; lia. Qed.
 
@@ -134,7 +127,7 @@ Proof.
   induction G as [|v G IH]; [reflexivity|]. rewrite !cnt_cons.
   replace (zlen (v :: G)) with (zlen G + 1) by (unfold zlen; cbn [length]; lia).
   unfold goes_pos at 1, goes_neg at 1, goes_zero at 1.
-  destruct (is_nan v), (fgt (inf_to_max v) zt), (flt (inf_to_max v) (fneg zt)); cbn [negb andb]; lia.
+  destruct (is_nan v), (fgt v zt), (flt v (fneg zt)); cbn [negb andb]; lia.
 Qed.
 
 (* one count set accounts for exactly the observations G *)
@@ -163,13 +156,13 @@ Proof. constructor; cbn; try reflexivity; try apply wf_nil; intros p []. Qed.
 
 Lemma goes_nan zt v : is_nan v = true -> goes_pos zt v = false /\ goes_neg zt v = false /\ goes_zero zt v = false.
 Proof. intros H. unfold goes_pos, goes_neg, goes_zero. rewrite H. repeat split; reflexivity. Qed.
-Lemma goes_p zt v : is_nan v = false -> fgt (inf_to_max v) zt = true ->
+Lemma goes_p zt v : is_nan v = false -> fgt v zt = true ->
   goes_pos zt v = true /\ goes_neg zt v = false /\ goes_zero zt v = false.
 Proof. intros H1 H2. unfold goes_pos, goes_neg, goes_zero. rewrite H1, H2. repeat split; reflexivity. Qed.
-Lemma goes_n zt v : is_nan v = false -> fgt (inf_to_max v) zt = false -> flt (inf_to_max v) (fneg zt) = true ->
+Lemma goes_n zt v : is_nan v = false -> fgt v zt = false -> flt v (fneg zt) = true ->
   goes_pos zt v = false /\ goes_neg zt v = true /\ goes_zero zt v = false.
 Proof. intros H1 H2 H3. unfold goes_pos, goes_neg, goes_zero. rewrite H1, H2, H3. repeat split; reflexivity. Qed.
-Lemma goes_z zt v : is_nan v = false -> fgt (inf_to_max v) zt = false -> flt (inf_to_max v) (fneg zt) = false ->
+Lemma goes_z zt v : is_nan v = false -> fgt v zt = false -> flt v (fneg zt) = false ->
   goes_pos zt v = false /\ goes_neg zt v = false /\ goes_zero zt v = true.
 Proof. intros H1 H2 H3. unfold goes_pos, goes_neg, goes_zero. rewrite H1, H2, H3. repeat split; reflexivity. Qed.
 
@@ -184,7 +177,7 @@ Proof.
     + rewrite cnt_snoc, E3. lia.
     + intros k. rewrite cnt_snoc, E1, Hp. cbn [andb]. lia.
     + intros k. rewrite cnt_snoc, E2, Hn. cbn [andb]. lia.
-  - destruct (fgt (inf_to_max v) (c_zt c)) eqn:Hgt.
+  - destruct (fgt v (c_zt c)) eqn:Hgt.
     + destruct (goes_p (c_zt c) v Hnan Hgt) as (E1 & E2 & E3).
       destruct Wp as [lo Wp]. pose proof (fun k => m_add_get (c_pos c) lo (key_of (c_schema c) v) 1 k Wp) as Eg.
       pose proof (m_add_sorted (c_pos c) lo (key_of (c_schema c) v) 1 Wp) as Es.
@@ -194,7 +187,7 @@ Proof.
       * intros k. rewrite Eg, cnt_snoc, Hp, E1. cbn [andb]. rewrite (Z.eqb_sym k). reflexivity.
       * intros k. rewrite cnt_snoc, E2, Hn. cbn [andb]. lia.
       * eexists. exact Es.
-    + destruct (flt (inf_to_max v) (fneg (c_zt c))) eqn:Hlt.
+    + destruct (flt v (fneg (c_zt c))) eqn:Hlt.
       * destruct (goes_n (c_zt c) v Hnan Hgt Hlt) as (E1 & E2 & E3).
         destruct Wn as [lo Wn]. pose proof (fun k => m_add_get (c_neg c) lo (key_of (c_schema c) v) 1 k Wn) as Eg.
         pose proof (m_add_sorted (c_neg c) lo (key_of (c_schema c) v) 1 Wn) as Es.
@@ -249,7 +242,7 @@ Proof.
         destruct (key v =? k0), (Q v); reflexivity.
       - pose proof (H k) as E. cbn [m_get] in E. destruct (Z.eqb_spec k k0); [lia|]. rewrite E.
         apply cnt_ext. intros v _. destruct (Z.eqb_spec (key v) k) as [->|]; [|rewrite !andb_false_r; reflexivity].
-        destruct (Z.eqb_spec k k0); [lia|]. rewrite andb_true_r. reflexivity. }
+        destruct (Z.eqb_spec k k0); [lia|]. cbn [negb]. rewrite !andb_true_r. reflexivity. }
     specialize (IH (k0 + 1) (fun v => Q v && negb (key v =? k0)) H2 Hr).
     unfold sumif in *. cbn [filter fst].
     rewrite (cnt_split (fun v => Q v && p (key v)) (fun v => key v =? k0) G).
@@ -261,7 +254,7 @@ Proof.
     + cbn [map snd]. change (zsum (c :: ?l)) with (c + zsum l).
       replace (cnt (fun v => Q v && p (key v) && (key v =? k0)) G) with c; [reflexivity|].
       rewrite E. apply cnt_ext. intros v _. destruct (Z.eqb_spec (key v) k0) as [->|]; [|rewrite !andb_false_r; reflexivity].
-      rewrite Hp. reflexivity.
+      rewrite Hp, !andb_true_r. reflexivity.
     + replace (cnt (fun v => Q v && p (key v) && (key v =? k0)) G) with 0; [reflexivity|].
       symmetry. apply cnt_false. intros v _. destruct (Z.eqb_spec (key v) k0) as [->|]; [|rewrite !andb_false_r; reflexivity].
       rewrite Hp, andb_false_r. reflexivity.
@@ -372,13 +365,176 @@ Proof.
       * apply zero_vals_zero.
       * apply zero_vals_wf. eexists; exact Wp.
       * apply zero_vals_wf. eexists; exact Wn.
-    + rewrite Hsch. reflexivity.
-    + rewrite Hzt. reflexivity.
+    + symmetry. exact Hzt.
   - constructor; cbn [w_count w_zc w_sum w_zt w_schema w_pspans w_pdeltas w_nspans w_ndeltas]; try assumption; try lia.
     destruct psp as [|ps psr]; [|exact SP]. destruct nsp as [|ns nsr]; [|exact SP].
     destruct (feq (c_zt (h_hot h)) pzero && (c_zb (h_hot h) =? 0)); [|exact SP].
     destruct (NP eq_refl) as [_ ->]. destruct SP as [pops [Hd Hrest]]. exists pops. split; [|exact Hrest].
     cbn in Hd. inversion Hd. subst pops. reflexivity.
-  - rewrite Hsch. reflexivity.
-  - rewrite Hzt. reflexivity.
+Qed.
+
+(* ---- limit strategies ---- *)
+Record inv2 (h : hist) (G : list f64) : Prop := mkInv2 {
+  j_inv : inv h G;
+  j_range : -4 <= c_schema (h_hot h) <= 8;
+  j_zt : fle pzero (c_zt (h_hot h)) = true;
+  j_cfg : valid_config (h_cfg h);
+  j_cfgzt : fle pzero (init_zt (h_cfg h)) = true
+}.
+
+Lemma init_zt_nonneg g : fle pzero (init_zt g) = true.
+Proof.
+  unfold init_zt. destruct (fgt (g_zt_opt g) pzero) eqn:E.
+  - apply flt_fle. exact E.
+  - destruct (feq (g_zt_opt g) pzero); vm_compute; reflexivity.
+Qed.
+
+Lemma inv2_new g : valid_config g -> inv2 (new_hist g) [].
+Proof.
+  intros Hv. constructor; cbn; try assumption; try apply init_zt_nonneg. apply inv_new.
+Qed.
+
+Lemma c_observe_fields c v :
+  c_schema (c_observe c v) = c_schema c /\ c_zt (c_observe c v) = c_zt c /\ c_cnt (c_observe c v) = c_cnt c + 1.
+Proof.
+  unfold c_observe. destruct (is_nan v); [repeat split|].
+  destruct (fgt v (c_zt c)).
+  - destruct (m_add (c_pos c) (key_of (c_schema c) v) 1). repeat split.
+  - destruct (flt v (fneg (c_zt c))); [destruct (m_add (c_neg c) (key_of (c_schema c) v) 1)|]; repeat split.
+Qed.
+
+Lemma inv2_observe_raw h G v : inv2 h G ->
+  inv2 (with_sets h (c_observe (h_hot h) v) (h_cold h) (h_n h + 1)) (G ++ [v]).
+Proof.
+  intros [[Ha Hd Hs Hz Hn] Hr Hzt Hc Hcz]. destruct (c_observe_fields (h_hot h) v) as (E1 & E2 & E3).
+  constructor; cbn [with_sets h_hot h_cold h_n h_cfg]; try assumption.
+  - constructor; cbn [with_sets h_hot h_cold h_n]; try assumption.
+    + apply acct_observe. exact Ha.
+    + rewrite E1. exact Hs.
+    + rewrite E2. exact Hz.
+    + rewrite E3, Hn. reflexivity.
+  - rewrite E1. exact Hr.
+  - rewrite E2. exact Hzt.
+Qed.
+
+Lemma inv2_ext h h' G : h_hot h' = h_hot h -> h_cold h' = h_cold h -> h_n h' = h_n h -> h_cfg h' = h_cfg h ->
+  inv2 h G -> inv2 h' G.
+Proof.
+  intros E1 E2 E3 E4 [[Ha Hd Hs Hz Hn] Hr Hzt Hc Hcz].
+  constructor; [constructor|..]; rewrite ?E1, ?E2, ?E3, ?E4; assumption.
+Qed.
+
+Lemma maybe_reset_inv h G v : inv2 h G ->
+  match maybe_reset h v with
+  | None => False
+  | Some (h', true) => inv2 h' [v] /\ h_cfg h' = h_cfg h
+  | Some (h', false) => h' = h
+  end.
+Proof.
+  intros [[Ha Hd Hs Hz Hn] Hr Hzt Hc Hcz]. unfold maybe_reset.
+  destruct ((g_min_reset (h_cfg h) =? 0) || h_sched h || (h_clock h - h_last h <? g_min_reset (h_cfg h))); [reflexivity|].
+  rewrite Hn, Z.eqb_refl. cbn [negb]. split; [|reflexivity].
+  destruct (c_observe_fields (reset_counts (h_cfg h)) v) as (E1 & E2 & E3).
+  constructor; cbn [h_hot h_cold h_n h_cfg]; try assumption.
+  - constructor; cbn [h_hot h_cold h_n].
+    + apply (acct_observe (reset_counts (h_cfg h)) [] v). apply acct_reset.
+    + apply drained_reset.
+    + rewrite E1. reflexivity.
+    + rewrite E2. reflexivity.
+    + rewrite E3. reflexivity.
+  - rewrite E1. cbn. exact Hc.
+  - rewrite E2. cbn. exact Hcz.
+Qed.
+
+Lemma timer_reset_inv h G : inv2 h G ->
+  match timer_reset h with None => False | Some h' => inv2 h' [] /\ h_cfg h' = h_cfg h end.
+Proof.
+  intros [[Ha Hd Hs Hz Hn] Hr Hzt Hc Hcz]. unfold timer_reset. rewrite Hn, Z.eqb_refl. cbn [negb].
+  split; [|reflexivity]. constructor; cbn [h_hot h_cold h_n h_cfg]; try assumption.
+  constructor; cbn; try reflexivity; [apply acct_reset|apply drained_reset].
+Qed.
+
+(* ---- halving ---- *)
+Lemma sumif_cons p k c r : sumif p ((k, c) :: r) = (if p k then c else 0) + sumif p r.
+Proof. unfold sumif. cbn [filter fst]. destruct (p k); reflexivity. Qed.
+
+Lemma double_merge_get : forall cm hm bn lo k', sorted_from hm lo ->
+  m_get (fst (double_merge cm hm bn)) k' = m_get hm k' + sumif (fun k => Z.eqb (halve k) k') cm /\
+  wf (fst (double_merge cm hm bn)).
+Proof.
+  induction cm as [|[k0 v] r IH]; intros hm bn lo k' Hh.
+  - cbn. split; [lia|eexists; exact Hh].
+  - cbn [double_merge]. pose proof (m_add_get hm lo (halve k0) v k' Hh) as Ea.
+    pose proof (m_add_sorted hm lo (halve k0) v Hh) as Es.
+    destruct (m_add hm (halve k0) v) as [hm1 cr]. cbn [fst] in Ea, Es.
+    destruct (IH hm1 (if cr then u32_inc bn else bn) _ k' Es) as [E W]. split; [|exact W].
+    rewrite E, Ea, sumif_cons. rewrite (Z.eqb_sym k'). lia.
+Qed.
+
+Lemma goes_pos_nonzero zt v : fle pzero zt = true -> goes_pos zt v = true -> is_nan v = false /\ feq v pzero = false.
+Proof.
+  intros Hz H. unfold goes_pos in H. apply andb_prop in H. destruct H as [Hn Hg].
+  split; [destruct (is_nan v); [discriminate|reflexivity]|].
+  unfold fgt in Hg. pose proof (fle_flt_trans _ _ _ Hz Hg) as Hp.
+  rewrite feq_fle. rewrite (flt_not_fle _ _ Hp). reflexivity.
+Qed.
+
+Lemma fneg_fle_zero zt : fle pzero zt = true -> fle (fneg zt) pzero = true.
+Proof.
+  intros H. destruct zt as [s|s| |s m e Hb]; try (destruct s; vm_compute in H |- *; congruence).
+  vm_compute in H. discriminate.
+Qed.
+
+Lemma goes_neg_nonzero zt v : fle pzero zt = true -> goes_neg zt v = true -> is_nan v = false /\ feq v pzero = false.
+Proof.
+  intros Hz H. unfold goes_neg in H. apply andb_prop in H. destruct H as [H Hl]. apply andb_prop in H. destruct H as [Hn _].
+  split; [destruct (is_nan v); [discriminate|reflexivity]|].
+  pose proof (flt_fle_trans _ _ _ Hl (fneg_fle_zero zt Hz)) as Hp.
+  rewrite feq_fle. rewrite (flt_not_fle _ _ Hp), andb_false_r. reflexivity.
+Qed.
+
+Lemma halved_counts (Q : f64 -> f64 -> bool) zt s m G k :
+  (forall v, Q zt v = true -> is_nan v = false /\ feq v pzero = false) ->
+  -3 <= s <= 8 -> wf m ->
+  (forall k0, m_get m k0 = cnt (fun v => Q zt v && Z.eqb (key_of s v) k0) G) ->
+  sumif (fun k0 => Z.eqb (halve k0) k) m = cnt (fun v => Q zt v && Z.eqb (key_of (s - 1) v) k) G.
+Proof.
+  intros HQ Hs [lo Hw] H. rewrite (sumif_cnt (key_of s) _ G m lo (Q zt) Hw H).
+  apply cnt_ext. intros v _. destruct (Q zt v) eqn:E; [|reflexivity]. cbn [andb].
+  destruct (HQ v E) as [Hn Hz]. rewrite (key_halving_lemma s v Hs Hn Hz). reflexivity.
+Qed.
+
+Lemma double_width_inv h G : inv2 h G ->
+  match double_width h with
+  | None => False
+  | Some h' => inv2 h' G /\ h_cfg h' = h_cfg h /\ c_zt (h_hot h') = c_zt (h_hot h)
+  end.
+Proof.
+  intros J. pose proof J as [[[Hc Hz Hp Hn Wp Wn Hs] [Dc Dz Ds Dp Dn DWp DWn] Hsch Hzt Hcnt] Hr Hztp Hcfg Hcz].
+  unfold double_width. destruct (Z.eqb_spec (c_schema (h_cold h)) (-4)) as [E4|E4]; [repeat split; assumption|].
+  rewrite Hcnt, Z.eqb_refl. cbn [negb]. unfold add_and_reset_counts. cbn [c_sum c_cnt c_zb c_zt c_schema c_bn c_pos c_neg].
+  assert (S0 : sorted_from ([] : bmap) 0) by exact I.
+  pose proof (fun k => double_merge_get (c_pos (h_hot h)) [] 0 0 k S0) as Gp.
+  destruct (double_merge (c_pos (h_hot h)) [] 0) as [hp bn1]. cbn [fst] in Gp.
+  pose proof (fun k => double_merge_get (c_neg (h_hot h)) [] bn1 0 k S0) as Gn.
+  destruct (double_merge (c_neg (h_hot h)) [] bn1) as [hn bn2]. cbn [fst] in Gn.
+  cbn [with_sets]. split; [|split; [reflexivity|exact Hzt]].
+  assert (Hr3 : -3 <= c_schema (h_hot h) <= 8) by lia.
+  constructor; cbn [h_hot h_cold h_n h_cfg c_schema c_zt]; try assumption; try lia.
+  - constructor; cbn [h_hot h_cold h_n c_schema c_zt c_cnt]; try reflexivity; try lia.
+    + constructor; cbn [c_sum c_cnt c_zb c_zt c_schema c_pos c_neg].
+      * lia.
+      * rewrite Hzt, Dz, Hz. lia.
+      * intros k. destruct (Gp k) as [E _]. rewrite E. cbn [m_get]. rewrite Hzt, Hsch.
+        rewrite (halved_counts goes_pos (c_zt (h_hot h)) (c_schema (h_hot h)) (c_pos (h_hot h)) G k
+                   (goes_pos_nonzero _ Hztp) Hr3 Wp Hp). lia.
+      * intros k. destruct (Gn k) as [E _]. rewrite E. cbn [m_get]. rewrite Hzt, Hsch.
+        rewrite (halved_counts goes_neg (c_zt (h_hot h)) (c_schema (h_hot h)) (c_neg (h_hot h)) G k
+                   (goes_neg_nonzero _ Hztp) Hr3 Wn Hn). lia.
+      * apply (Gp 0).
+      * apply (Gn 0).
+      * rewrite Ds, Hs. apply fadd_pzero_sum.
+    + constructor; cbn [c_sum c_cnt c_zb c_pos c_neg]; try reflexivity; try apply wf_nil; intros p [].
+    + symmetry. exact Hzt.
+  - rewrite Hzt. exact Hztp.
 Qed.
